@@ -28,6 +28,9 @@ func NormErrors(errs gqlerror.List) []string {
 		if msg == nullMsg1 || msg == nullMsg2 {
 			msg = "NULL"
 		}
+		if strings.HasPrefix(msg, "recovered: unexpected type ") {
+			msg = "FOREIGN"
+		}
 		out = append(out, e.Path.String()+"|"+msg)
 	}
 	sort.Strings(out)
@@ -44,6 +47,8 @@ func ExpErrors(errs []refexec.ErrEntry) []string {
 			msg = "NULL"
 		case "panic":
 			msg = proj.RecoverMsg(e.Msg)
+		case "foreign":
+			msg = "FOREIGN"
 		}
 		out = append(out, e.Path+"|"+msg)
 	}
